@@ -91,7 +91,7 @@ Example fp2int_nonvacuous :  (* -2.5 -> -2 with p_lost;  2^31 -> invalid *)
   normal 1325400064 /\ ~ fp2int_in_range 1325400064 /\ snd (fp2int 1325400064) = true.
 Proof. unfold normal, word, fp2int_in_range. vm_compute. intuition discriminate. Qed.
 Example fpmul_nonvacuous :   (* 1.5 * -2.25 = -3.375 exactly *)
-  normal 1069547520 /\ normal 3222274048 /\ mul_exact_normal 1069547520 3222274048 /\ fpmul 1069547520 3222274048 = 3227254784.
+  normal 1069547520 /\ normal 3222274048 /\ mul_exact_normal 1069547520 3222274048 /\ fpmul 1069547520 3222274048 = 3226992640.
 Proof. unfold normal, word, mul_exact_normal, normal_range. vm_compute. intuition discriminate. Qed.
 Example fpadd_nonvacuous :   (* 1.5 + -2.25 = -0.75 exactly (cancellation, sign of the larger operand) *)
   normal 1069547520 /\ normal 3222274048 /\ Z.abs (expo 1069547520 - expo 3222274048) < 32 /\
